@@ -124,6 +124,35 @@ function familyE () {
   }
 }
 
+// family E2: prefixes that are identifier-safe but not plain ASCII x every way the input can spell a name NEAR the
+// reserved one (the exact name, the same name through a unicode escape, the prefix with its special characters
+// replaced, folded or changed in case): whatever name the temporaries get, it is either refused or private
+const E2_PREFIXES = ['tëst', 'Ünï', 'p$q', 'ñ', 'T']
+const E2_VARIANTS = {
+  exact: (p) => p,
+  escaped: (p) => Array.from(p).map((ch) => /[A-Za-z0-9_$]/.test(ch) ? ch : '\\u{' + ch.codePointAt(0).toString(16) + '}').join(''),
+  underscored: (p) => p.replace(/[^A-Za-z0-9]/g, '_'),
+  folded: (p) => p.normalize('NFD').replace(/[\u0300-\u036f]/g, ''),
+  nfd: (p) => p.normalize('NFD'),
+  lower: (p) => p.toLowerCase(),
+  upper: (p) => p.toUpperCase(),
+  dropped: (p) => p.replace(/[^A-Za-z0-9]/g, '')
+}
+function familyE2 () {
+  const leaves = []
+  const stats = { states: 0, transitions: 0 }
+  const places = Object.keys(E_PLACEMENTS).concat(Object.keys(E_FILE_LEVEL))
+  for (const prefix of E2_PREFIXES) for (const [vn, vf] of Object.entries(E2_VARIANTS)) for (const idx of ['0', '1']) for (const place of places) {
+    const N = '__datadog_' + vf(prefix) + '_' + idx
+    if (vn !== 'exact' && vf(prefix) === prefix) continue
+    const op = E_OPS.t2
+    stats.states++; stats.transitions++
+    const code = E_PLACEMENTS[place] ? G.SCOPES.sloppy(E_PLACEMENTS[place].replace(/\bN\b/g, () => N).replace(/OP/g, op)) : E_FILE_LEVEL[place]('N', op).replace(/\bN\b/g, () => N)
+    leaves.push({ fam: 'E', key: 'E2¦' + prefix + '¦' + vn + '¦' + idx + '¦' + place, code, place: place + ':' + prefix + ':' + vn, name: N, config: Object.assign({}, C.FULL, { localVarPrefix: prefix }) })
+  }
+  return { leaves, stats }
+}
+
 async function build (tier) {
   let leaves = []
   let stats = { states: 1, transitions: 0 }
@@ -137,6 +166,7 @@ async function build (tier) {
     add({ leaves: r2.leaves.map((l) => ({ fam: 'D', key: 'Dh¦' + l.pick.op + '¦' + l.pick.sctx, code: G.render({ op: l.pick.op, exprctx: '@@', stmtctx: l.pick.sctx, scope: 'sloppy' }), shape: 'hook-reentry:' + l.pick.sctx, reenter: true, config: 'FULL' })), stats: r2.stats })
   }
   add(familyE())
+  add(familyE2())
   { // real library files: static scope / liveness analysis only
     const S = require('../lib/static_driver')
     const c = S.corpusLeaves(tier, ['FULL'], tier === 'thorough' ? 0 : 60)
@@ -146,7 +176,7 @@ async function build (tier) {
 }
 
 function leafCode (leaf) { return leaf.code !== undefined ? leaf.code : G.render(leaf) }
-function requests (leaf) { return [{ config: C[leaf.config], file: '/p/app.js', code: leafCode(leaf), want: ['parseIn', 'astOut'] }] }
+function requests (leaf) { return [{ config: typeof leaf.config === 'object' ? leaf.config : C[leaf.config], file: '/p/app.js', code: leafCode(leaf), want: ['parseIn', 'astOut'] }] }
 
 async function execDiff (leaf, r, code, v, reenter, tier) {
   const kind = r.parseIn && r.parseIn.kind === 'module' ? 'module' : 'script'
